@@ -2,6 +2,7 @@ import MorfuseModel.PtrCell.Lemmas
 import MorfuseModel.Sched.Machine
 import MorfuseModel.Sched.MachineInstHost
 import MorfuseModel.Sched.MachineInstCalls
+import MorfuseModel.Sched.MachineSlotsHost
 /-!
 # C05 — host call / return protocol
 
@@ -66,18 +67,6 @@ theorem C05_label_not_found_leaves_nothing (s : State) (label : Nat) (args : Lis
 `Reachable` / `reachable_hinv2` are those of `Sched/MachineHost.lean`, `Sched/MachineInstHost.lean`
 (host-operation histories without `save`/`load`, `ProgOK` programs, modulo fuel). -/
 
-theorem getRet_setRet (s : State) (c : Nat) (r : Ret) : (s.setRet c r).getRet c = r ∨ (s.setRet c r).getRet c = .none := by
-  unfold State.getRet State.setRet
-  simp only
-  induction s.calls with
-  | nil => right; rfl
-  | cons e l ih =>
-    by_cases he : e.1 = c
-    · left; simp [he]
-    · have hb : (e.1 == c) = false := by simpa using he
-      simp only [List.map_cons, hb, Bool.false_eq_true, if_false, List.find?_cons]
-      exact ih
-
 /-- **The result slot is decided when `ExecuteThread` returns.**  After a host call whose label exists the
     call's slot is never left `open`: it holds the value of a synchronous `end v`, or nothing (plain `end` /
     killed / NIL), or is marked pending because the thread is suspended and the host's `Event` keeps the
@@ -124,45 +113,6 @@ theorem C05_machine_reset_leaves_slots {s : State} (h : Reachable s) :
   unfold State.getRet
   rw [← hk]
 
-theorem getRet_setRet_ne (s : State) (c c' : Nat) (r : Ret) (h : c' ≠ c) : (s.setRet c r).getRet c' = s.getRet c' := by
-  unfold State.getRet State.setRet
-  simp only
-  induction s.calls with
-  | nil => rfl
-  | cons e l ih =>
-    by_cases he : e.1 = c
-    · have hb : (e.1 == c) = true := by simpa using he
-      have hb' : (e.1 == c') = false := by simp [he]; exact fun e' => h e'.symm
-      simp only [List.map_cons, hb, if_true, List.find?_cons, hb']
-      exact ih
-    · have hb : (e.1 == c) = false := by simpa using he
-      simp only [List.map_cons, hb, Bool.false_eq_true, if_false, List.find?_cons]
-      split
-      · rfl
-      · exact ih
-
-theorem find_setRet_self (c : Nat) (r : Ret) : ∀ (l : List (Nat × Ret)),
-    ((l.find? (·.1 == c)).map (·.2)).getD .none ≠ .none →
-    (((l.map (fun e => if e.1 == c then (e.1, r) else e)).find? (·.1 == c)).map (·.2)).getD .none = r
-  | [], h => absurd rfl h
-  | e :: l, h => by
-    by_cases he : e.1 = c
-    · have hb : (e.1 == c) = true := by simpa using he
-      simp only [List.map_cons, hb, if_true, List.find?_cons]
-      rfl
-    · have hb : (e.1 == c) = false := by simpa using he
-      simp only [List.map_cons, hb, Bool.false_eq_true, if_false, List.find?_cons] at h ⊢
-      exact find_setRet_self c r l h
-
-theorem getRet_setRet_self (s : State) (c : Nat) (r : Ret) (h : s.getRet c ≠ .none) : (s.setRet c r).getRet c = r :=
-  find_setRet_self c r s.calls h
-
-/-- the value an `end` hands to the host -/
-def endValue (th : Th) : EndV → Option V
-  | .none => none
-  | .lit n => some (.int n)
-  | .param i => match th.params.getD i .nil with | .nil => none | x => some x
-
 /-- **What `end` does to the host's slot, machine level.**  `end v` executed by a thread whose VM shares the
     result cell of host call `c` (any fuel, any state with the structural invariant): the whole instruction —
     result into the cell, `delete thread` with all its cascades — changes the slots exactly as follows: slot
@@ -182,16 +132,7 @@ theorem C05_machine_end_writes_slot (fuel : Nat) {s : State} (hn : NInv s) (t : 
     exact (cqAll fuel).dt [] _ t ((endResult_ninv hn th ev).setTh t _)
   have hget : ∀ c', (exec (fuel + 1) s t th (.end_ ev)).getRet c' = (endResult s th ev).getRet c' := by
     intro c'; unfold State.getRet; rw [hcalls]
-  have hE : endResult s th ev = (match th.call with
-      | none => s
-      | some c =>
-        match s.getRet c, endValue th ev with
-        | .open_, some x => s.setRet c (.val x)
-        | .open_, none => s.setRet c .none
-        | .pending, some x => s.setRet c (.val x)
-        | .pending, none => s.setRet c .nil
-        | _, _ => s) := by
-    unfold endResult endValue; cases ev <;> rfl
+  have hE := endResult_eq s th ev
   constructor
   · intro c hc
     refine ⟨?_, ?_, ?_⟩
@@ -214,6 +155,48 @@ theorem C05_machine_end_writes_slot (fuel : Nat) {s : State} (hn : NInv s) (t : 
   · intro hc c'
     rw [hget, hE]
     simp only [hc]
+
+/-- **The result arrives exactly at the thread's `end`, machine level.**  Both directions, for every
+    reachable state `s` (no fuel condition) and every frame `hostExecute s` (host events, timer resumptions,
+    every nested execution and cascade of the frame):
+    * (*only then*) if the content of slot `c` changed during the frame, then before the frame exactly one
+      thread record was linked to `c`, after the frame that thread is not linked to `c` any more (it executed
+      `end`, the only instruction that drops the link), and the slot went from undecided (`pending`) to decided
+      (a value, or `nil`) — it is never rewritten;
+    * (*while suspended*) if the thread linked to `c` is still linked after the frame (it is suspended, or
+      was not touched), the slot is unchanged;
+    * (*then indeed*) `C05_machine_end_writes_slot`: the `end v` of the linked thread writes exactly `v`
+      (nothing / `nil` for a plain `end`) into exactly that slot.
+    Killed threads: `C05_machine_killed_leaves_slot`. -/
+theorem C05_machine_result_at_end {s : State} (h : Reachable s) (c : Nat) :
+    ((hostExecute s).getRet c ≠ s.getRet c →
+      ∃ t th, s.th? t = some th ∧ th.call = some c ∧
+        (∀ t' th', s.th? t' = some th' → th'.call = some c → t' = t) ∧
+        (∀ th', (hostExecute s).th? t = some th' → th'.call ≠ some c) ∧
+        Written (s.getRet c) ((hostExecute s).getRet c)) ∧
+    (∀ t th th', s.th? t = some th → th.call = some c → (hostExecute s).th? t = some th' → th'.call = some c →
+      (hostExecute s).getRet c = s.getRet c) := by
+  have r := hostExecute_sr s
+  have lk := reachable_lk h
+  constructor
+  · intro hne
+    obtain ⟨t, th, hf, hc, hun, hw⟩ := r.sl c hne
+    exact ⟨t, th, hf, hc, fun t' th' hf' hc' => lk.uniq t' t th' th c hf' hf hc' hc, hun, hw⟩
+  · intro t th th' hf hc hf' hc'
+    apply Classical.byContradiction
+    intro hne
+    obtain ⟨t1, th1, hf1, hc1, hun, _⟩ := r.sl c hne
+    have : t1 = t := lk.uniq t1 t th1 th c hf1 hf hc1 hc
+    subst this
+    exact hun th' hf' hc'
+
+/-- the same through a `Reset()`: no slot is written at all (`C05_machine_reset_leaves_slots`), and through the
+    execution inside a host call: only the `end` of a linked thread writes, links are never created by scripts
+    and never shared -/
+theorem C05_machine_links_unique {s : State} (h : Reachable s) :
+    (∀ t th c, s.th? t = some th → th.call = some c → c < s.nextCall) ∧
+    (∀ t t' th th' c, s.th? t = some th → s.th? t' = some th' → th.call = some c → th'.call = some c → t = t') :=
+  ⟨(reachable_lk h).lt, (reachable_lk h).uniq⟩
 
 /-! non-vacuity: synchronous result, pending result -/
 example : ((hostCall (hostScript {} [[.end_ (.lit 7)]] [0]) 0 []).1.getRet 1) = .val (.int 7) := by decide +kernel
